@@ -3,6 +3,7 @@ import GraphSlam.Props.C09.SE2
 import GraphSlam.Props.C09.SE3
 import GraphSlam.Props.C10.SE3Boxplus
 import GraphSlam.Props.C09.IAdd
+import GraphSlam.Props.C09.FromMatrix
 
 /-! C09 — umbrella: group laws for the four pose types (`PoseSE3_boxplus_eq_add_lift`, the box-plus clause for
-SE(3), lives in `Props/C10/SE3Boxplus.lean`). -/
+SE(3), lives in `Props/C10/SE3Boxplus.lean`; the matrix → pose direction `PoseSE2.from_matrix` is `Props/C09/FromMatrix.lean`). -/
